@@ -57,8 +57,12 @@ res['confirmed'] = bool(ok)
 print(json.dumps(res, indent=1))
 if not ok:
     sys.exit(3)
-# run our checks against it
+# run our checks against it (holding /tmp/repo.lock: nothing else may use /repo while it carries the change)
+import fcntl
+lockf = open('/tmp/repo.lock', 'w')
+fcntl.flock(lockf, fcntl.LOCK_EX)
 st, _ = sh('git -C /repo status --porcelain')
+assert st.strip() == '', '/repo is not clean: ' + st
 rc, out = sh('git -C /repo apply %s' % patch)
 assert rc == 0, out
 detected = {}
@@ -71,6 +75,7 @@ try:
         res['ran'].append('./bin/check %s --tier quick -> exit %d' % (c, rc))
 finally:
     sh('git -C /repo checkout -- .')
+    fcntl.flock(lockf, fcntl.LOCK_UN)
 res['detected'] = detected
 d = '/verif/seeded/%s' % sid
 os.makedirs(d, exist_ok=True)
